@@ -13,6 +13,7 @@ import json as std_json          # independent decoder (gffutils itself uses sim
 import os
 import shutil
 import tempfile
+import traceback
 
 import gffutils
 from gffutils import constants, helpers
@@ -131,40 +132,57 @@ SET_PATHS = [("Feature[k]=v", _p_feat), ("attributes[k]=v", _p_attr), ("attribut
              ("attributes.setdefault(k,v)", _p_setdefault), ("attributes=Attributes(items+[(k,v)])", _p_rebuild)]
 
 
-def container_sources(tmpdir):
-    """name -> (thunk returning a FRESH feature, model of its attributes)"""
+def container_sources(tmpdir, fails):
+    """name -> (thunk returning a FRESH feature, model of its attributes); a source that cannot be
+    built on the tree under test is recorded as a failure and left out"""
     gff_model = {"ID": ["g1"], "Name": ["n1", "n2"], "Note": ["x"]}
     gtf_model = {"gene_id": ["g1"], "transcript_id": ["t1"], "Name": ["n1"]}
-    srcs = {}
+    srcs, dbs = {}, []
     srcs["parsed gff3"] = (lambda: feature_from_line(GFF_LINE), gff_model)
     srcs["parsed gtf"] = (lambda: feature_from_line(GTF_LINE), gtf_model)
-    f = feature_from_line(GFF_LINE)
-    f.id = "g1"
-    memdb = native_db([f])
-    srcs["database (memory)"] = (lambda: memdb["g1"], gff_model)
-    # a database file written by the real importer from a real file, re-opened
-    fn = os.path.join(tmpdir, "in.gff")
-    with open(fn, "w") as fh:
-        fh.write(GFF_LINE + "\n")
-    dbfn = os.path.join(tmpdir, "in.db")
-    gffutils.create_db(fn, dbfn)
-    filedb = gffutils.FeatureDB(dbfn)
-    srcs["database (file, create_db)"] = (lambda: filedb["g1"], gff_model)
-    # a row whose JSON text carries scalars and an empty list (written by SQL, not by gffutils)
-    g = feature_from_line(GFF_LINE)
-    g.id = "raw"
-    rawdb = native_db([g])
-    rawdb.conn.execute("UPDATE features SET attributes = ? WHERE id = 'raw'",
-                       ('{"ID":"raw","Name":["n1","n2"],"Note":"x","Empty":[],"U":"\\u00e9"}',))
-    rawdb.conn.commit()
-    raw_model = {"ID": ["raw"], "Name": ["n1", "n2"], "Note": ["x"], "Empty": [], "U": ["é"]}
-    srcs["database (scalar JSON row)"] = (lambda: rawdb["raw"], raw_model)
-    return srcs, [filedb, memdb, rawdb]
+
+    def mem():
+        f = feature_from_line(GFF_LINE)
+        f.id = "g1"
+        memdb = native_db([f])
+        dbs.append(memdb)
+        return (lambda: memdb["g1"], gff_model)
+
+    def filedb():
+        # a database file written by the real importer from a real file, re-opened
+        fn = os.path.join(tmpdir, "in.gff")
+        with open(fn, "w") as fh:
+            fh.write(GFF_LINE + "\n")
+        dbfn = os.path.join(tmpdir, "in.db")
+        gffutils.create_db(fn, dbfn).conn.close()
+        db = gffutils.FeatureDB(dbfn)
+        dbs.append(db)
+        return (lambda: db["g1"], gff_model)
+
+    def rawrow():
+        # a row whose JSON text carries scalars and an empty list (written by SQL, not by gffutils)
+        g = feature_from_line(GFF_LINE)
+        g.id = "raw"
+        rawdb = native_db([g])
+        dbs.append(rawdb)
+        rawdb.conn.execute("UPDATE features SET attributes = ? WHERE id = 'raw'",
+                           ('{"ID":"raw","Name":["n1","n2"],"Note":"x","Empty":[],"U":"\\u00e9"}',))
+        rawdb.conn.commit()
+        raw_model = {"ID": ["raw"], "Name": ["n1", "n2"], "Note": ["x"], "Empty": [], "U": [chr(0xe9)]}
+        return (lambda: rawdb["raw"], raw_model)
+
+    for name, build in (("database (memory)", mem), ("database (file, create_db)", filedb), ("database (scalar JSON row)", rawrow)):
+        try:
+            srcs[name] = build()
+        except Exception:
+            add_fail(fails, {"stage": "building the feature source %r" % name}, "no exception", traceback.format_exc()[-1200:])
+    return srcs, dbs
 
 
 def check_container_state(f, model, note):
     """compare every public view of f's attributes with the model under both settings of the switch.
     Returns None or (expected, observed, what)."""
+    shown_as_list = {}
     for always_list in (True, False, True):       # the last pass re-reads after the unwrapped views
         with view_switch(always_list):
             A = f.attributes
@@ -174,7 +192,11 @@ def check_container_state(f, model, note):
             items = dict(A.items())
             vals = dict(zip(keys, A.values()))
             for k, stored in model.items():
-                exp = view_rule(stored, always_list)
+                if always_list:
+                    # whether a tuple is kept or stored as a list is not fixed by the statement: the
+                    # unwrapped view below follows the sequence type actually shown with the switch on
+                    shown_as_list[k] = isinstance(A[k], list)
+                exp = view_rule(list(stored) if shown_as_list.get(k) else stored, always_list)
                 for how, obs in (("Feature[k]", f[k]), ("attributes[k]", A[k]), ("attributes.items()", items.get(k)),
                                  ("attributes.values()", vals.get(k)), ("attributes.get(k)", A.get(k))):
                     ok = obs == exp if isinstance(exp, str) else (isinstance(obs, (list, tuple)) and list(obs) == list(exp))
@@ -201,11 +223,15 @@ def unit_bounded_container(U):
     tmpdir = tempfile.mkdtemp(prefix="c17_container_", dir=tempfile.gettempdir())
     dbs = []
     try:
-        srcs, dbs = container_sources(tmpdir)
-        scratch_seed = feature_from_line(GFF_LINE)
-        scratch_seed.id = "g1"
-        scratch = native_db([scratch_seed])
-        dbs.append(scratch)
+        srcs, dbs = container_sources(tmpdir, fails)
+        scratch = None
+        try:
+            scratch_seed = feature_from_line(GFF_LINE)
+            scratch_seed.id = "g1"
+            scratch = native_db([scratch_seed])
+            dbs.append(scratch)
+        except Exception:
+            add_fail(fails, {"stage": "building the scratch database"}, "no exception", traceback.format_exc()[-1200:])
         single = [(p, k, v) for p in range(len(SET_PATHS)) for k in SET_KEYS for v in range(len(SET_VALUES))]
 
         def run(srcname, ops, set_switch, through_db):
@@ -229,7 +255,7 @@ def unit_bounded_container(U):
                                 model[k] = wrap_rule(copy.deepcopy(SET_VALUES[v]))
                             SET_PATHS[p][1](f, k, val)
                     bad = check_container_state(f, model, "after the sets")
-                if bad is None and through_db:
+                if bad is None and through_db and scratch is not None:
                     for fetch_switch in (True, False):
                         with view_switch(fetch_switch):
                             g = store_and_fetch(scratch, f, f.id or "g1")
@@ -261,6 +287,8 @@ def unit_bounded_container(U):
             for i in range(40000):
                 ops = [U.rng.choice(single) for _ in range(U.rng.choice((3, 4)))]
                 run(U.rng.choice(list(srcs)), ops, U.rng.random() < 0.5, through_db=(i % 8 == 0))
+    except Exception:
+        add_fail(fails, {"stage": "stand-in set-up or enumeration aborted by an exception of the code under test"}, "no exception", traceback.format_exc()[-1500:])
     finally:
         constants.always_return_list = True
         for d in dbs:
@@ -455,6 +483,8 @@ def unit_bounded_json(U):
             db.conn.close()
         except Exception as e:
             add_fail(fails, {"path": "create_db over %d features with the enumerated attribute mappings" % len(pipebatch)}, "no exception", repr(e))
+    except Exception:
+        add_fail(fails, {"stage": "stand-in set-up or enumeration aborted by an exception of the code under test"}, "no exception", traceback.format_exc()[-1500:])
     finally:
         constants.always_return_list = True
         try:
@@ -641,6 +671,8 @@ def unit_bounded_merge(U):
                         add_fail(fails, dict(case, what="features modified"), [l1, l2], [str(f1), str(f2)])
                 except Exception as e:
                     add_fail(fails, case, "the per-key union", repr(e))
+    except Exception:
+        add_fail(fails, {"stage": "stand-in set-up or enumeration aborted by an exception of the code under test"}, "no exception", traceback.format_exc()[-1500:])
     finally:
         constants.always_return_list = True
     U.bounded_result(
@@ -910,8 +942,11 @@ def unit_bounded_equality(U):
     # ---- all ordered pairs of a pool ---------------------------------------------------------
     fails, cases = [], 0
     tmpdir = tempfile.mkdtemp(prefix="c17_eq_", dir=tempfile.gettempdir())
+    pool = []
     try:
         pool = equality_pool(tmpdir)
+    except Exception:
+        add_fail(fails, {"stage": "building the pool of features aborted by an exception of the code under test"}, "no exception", traceback.format_exc()[-1500:])
     finally:
         shutil.rmtree(tmpdir, ignore_errors=True)
     nsame = 0
@@ -1064,6 +1099,8 @@ def unit_bounded_equality(U):
                     if bad:
                         add_fail(fails, {"source": srcname, "steps on f": [HASH_USES[h][0], "f.attributes[%r]=%r" % (key, tmpval), HASH_USES[h][0], "f.attributes[%r]=%r (restored)" % (key, old)],
                                          "g": "untouched fresh feature"}, bad[0], bad[1])
+    except Exception:
+        add_fail(fails, {"stage": "stand-in set-up or enumeration aborted by an exception of the code under test"}, "no exception", traceback.format_exc()[-1500:])
     finally:
         constants.always_return_list = True
         for d in dbs:
